@@ -18,6 +18,15 @@ def fam_{fn}_reach(a0: bool, a1: bool, a2: bool, b0: bool, b1: bool, b2: bool, m
 '''
 
 
+TG = '''
+def gen_{base}(i0: bool, i1: bool, i2: bool, i3: bool, i4: bool, i5: bool, a0: bool, b0: bool, as_dicts: bool, legacy_meta: bool) -> int:
+    """
+    post: _ == 0
+    """
+    return step_gen({base}, (i0, i1, i2, i3, i4, i5), a0, b0, as_dicts, legacy_meta, {which})
+'''
+
+
 def gen(which):
     from harness import c0910lib
     d = os.path.join(VERIF, '.scratch')
@@ -25,22 +34,32 @@ def gen(which):
     path = os.path.join(d, 'gen_ch_C%02d.py' % which)
     names = []
     with open(path, 'w') as f:
-        f.write('from harness.c0910lib import step\n')
+        f.write('from harness.c0910lib import step, step_gen\n')
         for name in c0910lib.SK:
             fn = name.replace('-', '_')
             f.write(T.format(fn=fn, name=name, which=which))
             names.append((fn, name))
+        for base in range(0, len(c0910lib.GEN), 64):
+            f.write(TG.format(base=base, which=which))
+            names.append(('GEN', base))
     return path, names
 
 
 def mk_replay(name, which):
     def replay(args):
         from harness import c0910lib
-        ba = tuple(bool(args['a%d' % i]) for i in range(3))
-        bb = tuple(bool(args['b%d' % i]) for i in range(3))
-        bm = (bool(args['m0']),)
+        if isinstance(name, int):
+            idx = name + sum((1 << i) for i in range(6) if args['i%d' % i])
+            a0, b0 = bool(args['a0']), bool(args['b0'])
+            ba, bb, bm = (a0, False, a0), (b0, b0, False), (False,)
+            lname = idx
+        else:
+            ba = tuple(bool(args['a%d' % i]) for i in range(3))
+            bb = tuple(bool(args['b%d' % i]) for i in range(3))
+            bm = (bool(args['m0']),)
+            lname = name
         try:
-            p09, p10, info = c0910lib.leaf(name, ba, bb, bm, bool(args['as_dicts']), bool(args['legacy_meta']))
+            p09, p10, info = c0910lib.leaf(lname, ba, bb, bm, bool(args['as_dicts']), bool(args['legacy_meta']))
         except Exception as e:  # noqa
             p09, p10, info = ['check crashed %r' % e], ['check crashed %r' % e], {}
         pr = p09 if which == 9 else p10
@@ -54,7 +73,15 @@ def mk_replay(name, which):
             cls = 'internal-error'
         elif pr and 'differs from the plan of the canonical' in pr[0]:
             cls = 'spelling-dependent-plan'
-        key = ('plan-wellformed:%s:%s' if which == 9 else 'routing:%s:%s') % (name, cls)
+        kname = name
+        if isinstance(name, int):
+            tmpl = c0910lib.GEN[lname]
+            kname = 'gen'
+            if '= (SELECT max(z)' in tmpl and which == 10:
+                cls = 'subquery-in-join-condition-not-planned'
+            else:
+                cls = cls + ':' + tmpl[tmpl.index(' ON ') + 4:][:60]
+        key = ('plan-wellformed:%s:%s' if which == 9 else 'routing:%s:%s') % (kname, cls)
         return bool(pr), dict(info, problems=pr[:4]), key, '%s: %s' % (info.get('sql'), pr[0] if pr else '')
     return replay
 
@@ -69,7 +96,9 @@ def run_for(pid, which, tier):
     run.assumptions = ['statement skeletons are the family in harness/c0910lib.py (table positions: FROM, JOIN sides, subquery in WHERE/target/CASE operand/function argument, CTE, FROM-subquery, UNION, INSERT..SELECT, UPDATE..FROM, DELETE, CREATE TABLE AS, model joins, api and files databases); other shapes are outside the claim',
                        'structure variables are finite-domain: CrossHair/z3 split the input space, each leaf runs the real parser and planner natively',
                        'plans are compared case-insensitively (the DML target identifier keeps the user spelling; resolving it is the executor\'s job)']
-    specs = [dict(fn='fam_%s' % fn, twin='fam_%s_reach' % fn, replay=mk_replay(name, which)) for fn, name in names]
+    specs = [dict(fn='fam_%s' % fn, twin='fam_%s_reach' % fn, replay=mk_replay(name, which)) for fn, name in names if fn != 'GEN']
+    specs += [dict(fn='gen_%d' % base, twin=None, replay=mk_replay(base, which)) for fn, base in names if fn == 'GEN']
+    run.bounds['generated_join_family'] = '%d statements: 3 join kinds x 16 ON shapes x 7 WHERE shapes x 3 select/tail shapes, x 2 spellings each of int1/int2 x catalog forms' % len(c0910lib.GEN)
     ch_obligations(run, path, specs, cond_to=300 if tier == 'quick' else 900, path_to=60)
     for name in list(c0910lib.SK)[:3]:
         run.sample({'skeleton': name, 'template': c0910lib.SK[name][0]})
@@ -81,6 +110,10 @@ def replay_for(which, path):
     print(json.dumps(r, indent=1))
     from harness import c0910lib
     h = r['replay']['harness'].replace('fam_', '')
+    if h.startswith('gen_'):
+        rep, info, key, what = mk_replay(int(h[4:]), which)(r['replay']['args'])
+        print('native replay now: reproduced=%s %s' % (rep, json.dumps(info, default=repr)))
+        return 1 if rep else 0
     for name in c0910lib.SK:
         if name.replace('-', '_') == h:
             rep, info, key, what = mk_replay(name, which)(r['replay']['args'])
